@@ -331,6 +331,7 @@ func Drive(id, tier string, replayFile string) int {
 
 	// replays
 	replayDir := filepath.Join(verifDir, "replays", id)
+	os.RemoveAll(replayDir) // replays of earlier runs are stale
 	var vioLines []string
 	for _, v := range fresh {
 		os.MkdirAll(replayDir, 0o755)
